@@ -288,7 +288,11 @@ class Emitter:
                 out.append(f'{ind}{st} = accfg.setup "{acc}" to ({params}) : !accfg.state<"{acc}">')
                 self.launch_id += 1
                 lnames, lvals, ltys = [], [], []
-                for lname, lit, lty in self.accs[acc].get("launch", ()):
+                # launch fields are named: every second launch lists them in reverse order (values travel with their names)
+                lspec = list(self.accs[acc].get("launch", ()))
+                if self.launch_id % 2 == 0:
+                    lspec.reverse()
+                for lname, lit, lty in lspec:
                     lv = self.fresh("lv")
                     out.append(f"{ind}{lv} = arith.constant {lit} : {lty}")
                     lnames.append(f'"{lname}"')
